@@ -4,7 +4,7 @@
 P="$1"; shift
 cd /verif || exit 2
 git -C /repo diff --quiet || { echo "refusing: /repo has uncommitted changes"; exit 2; }
-git -C /repo apply "$P" 2>/dev/null || git -C /repo apply --3way "$P" || { echo "patch does not apply"; git -C /repo checkout -- . ; exit 2; }
+git -C /repo apply "$P" 2>/dev/null || git -C /repo apply --3way "$P" || { echo "patch does not apply"; git -C /repo reset -q --hard HEAD ; exit 2; }
 trap 'git -C /repo reset -q --hard HEAD ; git -C /repo status --short | head -3' EXIT INT TERM
 for c in "$@"; do
   ./check "$c" --tier "${VERIF_TIER:-quick}" > "/tmp/seedrun_$c.log" 2>&1
